@@ -56,7 +56,7 @@ def v2_doc(sc, work):
     fv = sc["fv"]
     out_iv = {v: dict(encoding=dict(datatype=t), attributes=dict(long_name=v)) for v, t in [("pid", "i4"), ("X", "f8"), ("Y", "f8"), ("Z", "f8")]}
     doc = dict(version=2,
-               time=dict(start=iso(sc["start"]), stop=iso(sc["stop"]), dt=sc["dt"]),
+               time=dict(start=iso(sc["start"]), stop=iso(sc["stop"]), dt=sc["dt"], **({"reference": iso(sc["ref"])} if sc["fv"].get("hasref") else {})),
                forcing=dict(module=sc.get("usermod") or "ladim.ROMS", filename=os.path.join(work, "f_*.nc" if fv["wildcard"] else first_file(sc))),
                tracker=dict(advection=fv["adv"]),
                state=dict(particle_variables=dict(release_time="time", **({"farmid": "int"} if fv["extracol"] else {}))),
@@ -99,7 +99,7 @@ def v1_doc(sc, work):
     ov = dict(outper=sc["dt"] * sc["ops"], format="NETCDF4", instance=["pid", "X", "Y", "Z"], particle=(["release_time"] + (["farmid"] if fv["extracol"] else [])) if fv["pvars"] else [],
               pid=dict(ncformat="i4", long_name="pid"), X=dict(ncformat="f8", long_name="X"), Y=dict(ncformat="f8", long_name="Y"), Z=dict(ncformat="f8", long_name="Z"),
               release_time=dict(ncformat="f8", long_name="particle release time", units="seconds since reference_time"), farmid=dict(ncformat="i4", long_name="farm"))
-    doc = dict(time_control=dict(start_time=iso(sc["start"]), stop_time=iso(sc["stop"])),
+    doc = dict(time_control=dict(start_time=iso(sc["start"]), stop_time=iso(sc["stop"]), **({"reference_time": iso(sc["ref"])} if fv.get("hasref") else {})),
                files=dict(particle_release_file=os.path.join(work, "r.rls"), output_file=os.path.join(work, "OUTNAME")),
                gridforce=gf, particle_release=pr, numerics=dict(dt=sc["dt"], advection=fv["adv"], diffusion=float(fv["diffusion"])), output_variables=ov)
     if fv["optsec"] == "present":
@@ -119,7 +119,7 @@ def project(conf, work):
     rel = conf["release"]
     out = conf["output"]
     cont = bool(rel.get("continuous", False))
-    return dict(start=secs_of(t["start"]), stop=secs_of(t["stop"]), dt=int(t["dt"]),
+    return dict(start=secs_of(t["start"]), stop=secs_of(t["stop"]), dt=int(t["dt"]), ref=(secs_of(t["reference"]) if t.get("reference") else -1),
                 gridfile=base(conf["grid"].get("filename", "")), subgrid=bool(conf["grid"].get("subgrid")), forcing=base(conf["forcing"]["filename"]),
                 adv=conf["tracker"].get("advection", ""), diffusion=int(round(float(conf["tracker"].get("diffusion", 0)))),
                 cont=cont, freq=int(rel.get("release_frequency", 0)) if cont else 0, names=list(rel.get("names") or []),
@@ -138,7 +138,7 @@ def run_spellings(sc):
     from ..pairs import flatten
     fv = sc["fv"]
     work = tlc.scratch("lv_c18_")
-    cfg_trace = [dict(ev="setup", fv=fv, first=first_file(sc), start=sc["start"], stop=sc["stop"], dt=sc["dt"], outper=sc["dt"] * sc["ops"])]
+    cfg_trace = [dict(ev="setup", fv=fv, first=first_file(sc), ref=(sc["ref"] if fv.get("hasref") else -1), start=sc["start"], stop=sc["stop"], dt=sc["dt"], outper=sc["dt"] * sc["ops"])]
     pair = [dict(ev="setup", kinds=["same", "same"])]
     try:
         write_files(sc, work)
@@ -174,7 +174,7 @@ def run_spellings(sc):
                 err = f"{type(e).__name__}: {str(e)[:80]}"
             gc.collect()
             if err:
-                run = dict(ok=False, recs=[], idx=[], pvrt=[], pvsrc=[], what=err)
+                run = dict(ok=False, recs=[], idx=[], refs=[], pvrt=[], pvsrc=[], what=err)
             else:
                 files = decode_files(work, dict(hasscal=False), pattern=f"out_{kind}*.nc")
                 for f_ in files:
@@ -213,7 +213,9 @@ def scenario(rng):
     sub = rng.random() < 0.5
     gridsec = rng.choice(["explicit", "nofile", "omitted"])
     fv = dict(cont=base["cont"], freq=base["freq"], extracol=rng.random() < 0.5, pvars=rng.random() < 0.6, diffusion=0, subgrid=sub and gridsec != "omitted",
-              gridsec=gridsec, wildcard=bool(base["cuts"]) or rng.random() < 0.3, optsec=rng.choice(["present", "omitted"]), adv=base["adv"])
+              gridsec=gridsec, wildcard=bool(base["cuts"]) or rng.random() < 0.3, optsec=rng.choice(["present", "omitted"]), adv=base["adv"],
+              hasref=rng.random() < 0.5)
+    base["ref"] = base["start"] - rng.choice([3600, 86400, 7 * 86400])
     if base["cuts"]:
         fv["wildcard"] = True
         if rng.random() < 0.5:
